@@ -325,11 +325,29 @@ def clause_text(reg, target, clause):
 
 
 def trusted_base(reg, funcs):
+    """assumptions about code outside /repo that the contracts in this property's tree rest on (derived from the
+    contracts themselves: the symbolic execution runs in worker processes)"""
     from pyvc import externals
     out = []
-    used = getattr(externals, 'USED', set())
+    used = set(getattr(externals, 'USED', set()))
+    targets = {r.target for r in funcs}
+    cons = [reg.contracts[t] for t in targets if t in reg.contracts]
+
+    def mentions(con, what):
+        return what in repr(con.params) or any(what in repr(v.get('params')) for v in con.variants.values())
+    if any(mentions(c, "'source'") for c in cons):
+        used.add('E1')
+    if any(t.endswith('ieee_parse_func') or t.endswith('FloatDataEncoding.parse_func') for t in targets):
+        used.add('E2')
+    if any('decode(' in repr(c.ensures) or 'StringDataEncoding.parse_value' in c.target for c in cons):
+        used.add('E4')
+    if any(c.pure for c in cons):
+        used.add('E11')
     for k in sorted(used):
         out.append(externals.TRUSTED.get(k, k))
+    for c in sorted(cons, key=lambda c_: c_.target):
+        if c.native_only:
+            out.append(f"contract not discharged by proof ({c.target}): {c.native_only}")
     out.append("theory axioms of pyvc/theory.py (each stated as a Lean theorem in lean/PyVC.lean where arithmetic, and "
                "tested against the executable definitions in specs/prims.py by pyvc/conformance.py)")
     out.append("z3 5.1 / cvc5 1.0 / z3 4.8 soundness")
